@@ -307,20 +307,27 @@ func aggregateRows(selectList sql.SelectList, groupBy []sql.ColumnReference, row
 		return emptyAggregateRow(selectList, rows)
 	}
 
-	// map columns to indexes on the select list
-	colToIdx := map[sql.ColumnReference]int{}
-	for idx, col := range selectList {
-		switch col := col.ValueExpressionPrimary.(type) {
-		case sql.ColumnReference:
-			colToIdx[col] = idx
+	// map GROUP BY columns to indexes on the select list. a GROUP BY column
+	// may refer to a select column by name, by qualified name or by alias.
+	var groupIdxs []int
+	for _, groupByCol := range groupBy {
+		found := false
+		for idx, col := range selectList {
+			if col.Matches(groupByCol) {
+				groupIdxs = append(groupIdxs, idx)
+				found = true
+				break
+			}
+		}
+		if !found {
+			return nil, fmt.Errorf("%w: GROUP BY column `%s` must appear in select list", ErrTmpUnsupportedSyntax, groupByCol)
 		}
 	}
 
 	// generate keys for GROUP BY values
 	groupKey := func(row *storage.Row) string {
 		var key string
-		for _, groupByCol := range groupBy {
-			idx := colToIdx[groupByCol]
+		for _, idx := range groupIdxs {
 			key += fmt.Sprintf("%#v,", row.Vals[idx])
 		}
 		return key
